@@ -34,6 +34,10 @@ def budget(tier):
     return {"examples": 4000 if tier == "quick" else 60000, "shards": 16, "shrink": 300 if tier == "quick" else 2000}
 
 
+# print_timing option of Network: off, on, or a threshold in seconds (never / always reached); it only adds printing
+TIMING = [False, False, False, True, 1e9, 0.0]
+
+
 def strategy(tier):
     big = tier != "quick"
     ref = st.integers(0, 40)
@@ -46,7 +50,8 @@ def strategy(tier):
     node = st.fixed_dictionaries({"kind": st.sampled_from(KINDS), "in": st.lists(ref, min_size=2, max_size=2),
                                   "slc": st.lists(slc, min_size=2, max_size=2), "m": st.integers(1, 4)})
     nest = st.lists(st.fixed_dictionaries({"start": st.integers(0, 12), "len": st.integers(1, 6),
-                                           "mode": st.sampled_from(["ctor", "append", "dict", "ctor_list"])}),
+                                           "mode": st.sampled_from(["ctor", "append", "dict", "ctor_list"]),
+                                           "timing": st.sampled_from(TIMING)}),
                     max_size=3)
     return st.fixed_dictionaries({
         "sources": st.lists(st.integers(1, 4), min_size=1, max_size=4),
@@ -54,6 +59,7 @@ def strategy(tier):
         "nodes": st.lists(node, min_size=2, max_size=14 if big else 10),
         "seeds": st.lists(ref, min_size=1, max_size=4),
         "nest": nest,
+        "timing": st.sampled_from(TIMING),      # print_timing option of the top-level network
         # common magnitude of all seeds: the total derivative is linear in the seeds, so tiny or huge adjoints must
         # propagate exactly like O(1) ones (compared relative to the expected magnitude)
         "seed_scale": st.sampled_from([1.0, 1.0, 1.0, 1e-9, 1e-12, 1e7]),
@@ -199,6 +205,13 @@ def resolve_slice(spec, n, rng_unused=None):
 
 
 def check_case(case):
+    import contextlib
+    import io
+    with contextlib.redirect_stdout(io.StringIO()):      # print_timing writes to stdout
+        return _check_case(case)
+
+
+def _check_case(case):
     import pymoto as pym
     M = mods()
     rng = np.random.default_rng(case["payload_seed"])
@@ -398,12 +411,13 @@ def check_case(case):
         ln = max(1, min(nst["len"], len(items) - a))
         grp = items[a:a + ln]
         mode = nst["mode"]
+        tim = nst.get("timing", False)
         if mode == "ctor":
-            net = pym.Network(*grp)
+            net = pym.Network(*grp, print_timing=tim)
         elif mode == "ctor_list":
-            net = pym.Network(grp)
+            net = pym.Network(grp, print_timing=tim)
         elif mode == "append":
-            net = pym.Network()
+            net = pym.Network(print_timing=tim)
             for g in grp:
                 net.append(g)
         else:
@@ -414,11 +428,15 @@ def check_case(case):
                     spec.append({"type": "C02Lin", "sig_in": g.sig_in, "sig_out": g.sig_out, "M": g.M})
                 else:
                     spec.append(g)
-            net = pym.Network(spec)
+            net = pym.Network(spec, print_timing=tim)
+        if tim is not False:
+            labels.append("nest_timing")
         items[a:a + ln] = [net]
         labels.append("nested")
         labels.append("nest:" + mode)
-    top = pym.Network(items)
+    top = pym.Network(items, print_timing=case.get("timing", False))
+    if case.get("timing", False) is not False:
+        labels.append("top_timing")
 
     # ---------------- run the real network
     try:
